@@ -39,6 +39,8 @@ OPTION_SITES = [
     # how the project addresses its output directory: default ./doc, through a `..` component, through a symlinked
     # directory, several levels deep
     ("outdir", ["default", "dotdot", "symlink", "nested"]),
+    # non-Fortran files documented via extra_filetypes (they count as source files for the file list)
+    ("extra_files", [False, True]),
 ]
 
 
@@ -64,8 +66,11 @@ def option_base_shapes():
 
 
 def build_and_check(st: Stats, shape, opts, pages, stratum, feats, move=False):
-    files = projgen.make_project(pages=pages, **shape)
     o = dict(opts)
+    extra = bool(o.pop("extra_files", False))
+    files = projgen.make_project(pages=pages, extra_files=extra, **shape)
+    if extra:
+        o["extra_filetypes"] = [dict(extension="sh", comment="#"), dict(extension="yml", comment="#")]
     if pages is not None:
         o["page_dir"] = "pages"
     root = None
